@@ -378,10 +378,10 @@ Proof.
   { induction HF as [|x x' r r' HR HF IH]; cbn; auto.
     destruct (sc_fields _ _ HR) as (_ & _ & _ & _ & E); rewrite E, IH; reflexivity. }
   assert (E2 : forall t0, extract_chain t0 ch = extract_chain t0 ch').
-  { induction HF as [|x x' r r' HR HF IH]; intros t0; [reflexivity|].
+  { clear E1. induction HF as [|x x' r r' HR HF IH]; intros t0; [reflexivity|].
     unfold extract_chain in *; cbn [fold_left].
     replace (extract t0 x') with (extract t0 x); [apply IH|].
-    unfold extract. destruct (sc_fields _ _ HR) as (_ & _ & _ & E & _); rewrite E; reflexivity. }
+    unfold extract. destruct (sc_fields _ _ HR) as (_ & _ & _ & E & _). rewrite E; reflexivity. }
   rewrite E1. destruct (negb (forallb b_ok ch')); auto.
   destruct (clear_target t o); auto. rewrite E2; reflexivity.
 Qed.
@@ -451,4 +451,288 @@ Proof.
   apply Forall2_sct_sc. rewrite <- (Forall2_len _ _ _ HL).
   destruct HR as [HC _]. destruct (sc_fields _ _ HC) as (EI & _). rewrite <- EI.
   apply pitr_incr_rel; auto.
+Qed.
+
+(* ------------------------------------------------------------------------------------------ *)
+(* sorting / membership facts                                                                  *)
+(* ------------------------------------------------------------------------------------------ *)
+Lemma memN_In : forall x l, memN x l = true <-> In x l.
+Proof.
+  induction l as [|y r IH]; cbn; [split; [discriminate|contradiction]|].
+  rewrite orb_true_iff, N.eqb_eq, IH. split; intros [H|H]; auto.
+Qed.
+
+Lemma ins_by_In : forall {A} (key : A -> N) x y l, In y (ins_by key x l) <-> y = x \/ In y l.
+Proof.
+  induction l as [|z r IH]; cbn; [intuition|].
+  destruct (key x <? key z); cbn; [intuition|]. rewrite IH; intuition.
+Qed.
+
+Lemma sort_by_In : forall {A} (key : A -> N) y l, In y (sort_by key l) <-> In y l.
+Proof.
+  induction l as [|z r IH]; cbn; [tauto|].
+  unfold sort_by in *; cbn. rewrite ins_by_In, IH. intuition.
+Qed.
+
+Lemma sort_by_sorted_id : forall l, StronglySorted N.lt l -> sort_by (fun s => s) l = l.
+Proof.
+  induction l as [|x r IH]; intros HS; [reflexivity|].
+  inversion HS as [|? ? HS' HF]; subst. unfold sort_by in *; cbn. rewrite (IH HS').
+  destruct r as [|y r']; [reflexivity|]. cbn.
+  inversion HF as [|? ? HL _]; subst. apply N.ltb_lt in HL; rewrite HL; reflexivity.
+Qed.
+
+Lemma dedup_sorted_id : forall l, StronglySorted N.lt l -> dedup l = l.
+Proof.
+  induction l as [|x r IH]; intros HS; [reflexivity|].
+  inversion HS as [|? ? HS' HF]; subst. cbn.
+  destruct r as [|y r']; [reflexivity|].
+  inversion HF as [|? ? HL _]; subst.
+  assert (E : (x =? y) = false) by (apply N.eqb_neq; lia). rewrite E. f_equal. apply IH; exact HS'.
+Qed.
+
+Lemma filter_none : forall {A} (p : A -> bool) l, (forall x, In x l -> p x = false) -> filter p l = [].
+Proof.
+  induction l as [|x r IH]; intros H; cbn; [reflexivity|].
+  rewrite (H x (or_introl eq_refl)). apply IH; intros y HY; apply H; right; exact HY.
+Qed.
+
+Lemma merge_segs_id : forall listed extra,
+  StronglySorted N.lt listed -> (forall s, In s extra -> In s listed) -> merge_segs listed extra = listed.
+Proof.
+  intros listed extra HS HI; unfold merge_segs.
+  rewrite filter_none.
+  - rewrite app_nil_r, sort_by_sorted_id by exact HS. apply dedup_sorted_id; exact HS.
+  - intros x HX. apply HI in HX. apply memN_In in HX. rewrite HX; reflexivity.
+Qed.
+
+Lemma sorted_lt_nodup : forall l, StronglySorted N.lt l -> NoDup l.
+Proof.
+  induction l as [|x r IH]; intros HS; [constructor|].
+  inversion HS as [|? ? HS' HF]; subst. constructor; [|apply IH; exact HS'].
+  intro HI. rewrite Forall_forall in HF. apply HF in HI. lia.
+Qed.
+
+Lemma wal_entries_In : forall d s x, In (s, x) (wal_entries d) <-> In (FWal s, x) d.
+Proof.
+  induction d as [|[k v] r IH]; intros s x; cbn; [tauto|].
+  destruct k; cbn; rewrite IH; split; intros H.
+  - right; exact H.
+  - destruct H as [E|H]; [discriminate|exact H].
+  - right; exact H.
+  - destruct H as [E|H]; [discriminate|exact H].
+  - destruct H as [E|H]; [left; inversion E; reflexivity|right; exact H].
+  - destruct H as [E|H]; [left; inversion E; reflexivity|right; exact H].
+  - right; exact H.
+  - destruct H as [E|H]; [discriminate|exact H].
+Qed.
+
+Lemma wal_on_disk_In : forall d s x, In (s, x) (wal_on_disk d) <-> In (FWal s, x) d.
+Proof. intros; unfold wal_on_disk; rewrite sort_by_In; apply wal_entries_In. Qed.
+
+Lemma map_opt_ext_in : forall {A B} (f g : A -> option B) l,
+  (forall x, In x l -> f x = g x) -> map_opt f l = map_opt g l.
+Proof.
+  induction l as [|x r IH]; intros H; cbn; [reflexivity|].
+  rewrite (H x (or_introl eq_refl)), IH; [reflexivity|]. intros y HY; apply H; right; exact HY.
+Qed.
+
+Lemma map_opt_some : forall {A B} (f : A -> option B) l,
+  (forall x, In x l -> f x <> None) -> map_opt f l <> None.
+Proof.
+  induction l as [|x r IH]; intros H; cbn; [discriminate|].
+  destruct (f x) eqn:E; [|exfalso; apply (H x (or_introl eq_refl)); exact E].
+  destruct (map_opt f r) eqn:E2; [discriminate|].
+  exfalso; apply IH; [|reflexivity]. intros y HY; apply H; right; exact HY.
+Qed.
+
+(* ------------------------------------------------------------------------------------------ *)
+(* well-formed source directories and the recovery-relevant files                              *)
+(* ------------------------------------------------------------------------------------------ *)
+(* A quiescent directory written by the engine: unique names; a parsable MANIFEST whose segment list
+   is in increasing id order and names exactly the WAL files on disk; the snapshot it names exists. *)
+Definition wf_sdir (d : sdir) (m : manifest) : Prop :=
+  NoDup (map fst d) /\
+  (exists mt, sget d FManifest = Some (CMan m, mt)) /\
+  StronglySorted N.lt (m_segs m) /\
+  (forall s, In s (m_segs m) <-> exists x, sget d (FWal s) = Some x) /\
+  (forall s, m_snap m = Some s -> exists x, sget d (FSnap s) = Some x).
+
+Definition snap_part (d : sdir) (m : manifest) : tdir :=
+  match m_snap m with
+  | None => []
+  | Some s => match sget d (FSnap s) with Some (c, _) => [(FSnap s, c)] | None => [] end
+  end.
+
+Definition seg_part (d : sdir) (segs : list N) : tdir :=
+  flat_map (fun s => match sget d (FWal s) with Some (c, _) => [(FWal s, c)] | None => [] end) segs.
+
+(* exactly what recovery reads from d: the snapshot named by the manifest, the manifest, the listed segments *)
+Definition view_files (d : sdir) (m : manifest) : tdir :=
+  snap_part d m ++ (FManifest, CMan m) :: seg_part d (m_segs m).
+
+Lemma set_segs_id : forall m, set_segs m (m_segs m) = m.
+Proof. intros [a b c e]; reflexivity. Qed.
+
+Lemma map_opt_wal_member : forall d segs,
+  (forall s, In s segs -> exists x, sget d (FWal s) = Some x) ->
+  map_opt (wal_member d) segs = Some (seg_part d segs) /\ map fst (seg_part d segs) = map FWal segs.
+Proof.
+  induction segs as [|s r IH]; intros H; cbn; [split; reflexivity|].
+  destruct (H s (or_introl eq_refl)) as [[c mt] E].
+  destruct IH as [IH1 IH2]; [intros y HY; apply H; right; exact HY|].
+  unfold wal_member at 1. rewrite E, IH1. cbn. rewrite IH2. split; reflexivity.
+Qed.
+
+Lemma uniq_names_id : forall l seen,
+  NoDup (map fst l) -> (forall n, In n seen -> ~ In n (map fst l)) -> uniq_names seen l = l.
+Proof.
+  induction l as [|[n c] r IH]; intros seen ND HS; cbn; [reflexivity|].
+  cbn in ND; inversion ND as [|? ? NI ND']; subst.
+  assert (E : existsb (fname_eqb n) seen = false).
+  { destruct (existsb (fname_eqb n) seen) eqn:E; [|reflexivity].
+    apply existsb_exists in E; destruct E as [x [HX HE]]. apply fname_eqb_eq in HE; subst x.
+    exfalso; apply (HS n HX); left; reflexivity. }
+  rewrite E. f_equal. apply IH; [exact ND'|].
+  intros x [HX|HX] HI.
+  - subst x; exact (NI HI).
+  - apply (HS x HX); right; exact HI.
+Qed.
+
+Lemma NoDup_map_FWal : forall l, NoDup l -> NoDup (map FWal l).
+Proof.
+  induction l as [|x r IH]; intros ND; cbn; [constructor|].
+  inversion ND as [|? ? NI ND']; subst. constructor; [|apply IH; exact ND'].
+  intro HI; apply in_map_iff in HI; destruct HI as [y [E HY]]; inversion E; subst; exact (NI HY).
+Qed.
+
+Lemma view_files_nodup : forall d m, wf_sdir d m -> NoDup (map fst (view_files d m)).
+Proof.
+  intros d m (ND & _ & HS & HL & _). unfold view_files.
+  destruct (map_opt_wal_member d (m_segs m)) as [_ EN]; [intros s HI; apply HL; exact HI|].
+  rewrite map_app; cbn. rewrite EN.
+  assert (NW : NoDup (map FWal (m_segs m))) by (apply NoDup_map_FWal, sorted_lt_nodup; exact HS).
+  assert (NM : ~ In FManifest (map FWal (m_segs m))).
+  { intro HI; apply in_map_iff in HI; destruct HI as [y [E _]]; discriminate. }
+  unfold snap_part. destruct (m_snap m) as [s|]; cbn; [|constructor; auto].
+  destruct (sget d (FSnap s)) as [[c mt]|]; cbn; [|constructor; auto].
+  constructor; [|constructor; auto].
+  intros [E|HI]; [discriminate|]. apply in_map_iff in HI; destruct HI as [y [E _]]; discriminate.
+Qed.
+
+Lemma create_full_files_wf : forall d m, wf_sdir d m ->
+  create_full_files d = Ok (view_files d m, max_list (m_segs m), m_snap m).
+Proof.
+  intros d m WF. pose proof (view_files_nodup d m WF) as NDV.
+  destruct WF as (ND & [mt EM] & HS & HL & HSN).
+  unfold create_full_files. rewrite EM.
+  assert (HD : forall s, In s (map fst (wal_on_disk d)) <-> In s (m_segs m)).
+  { intros s; rewrite HL; split.
+    - intros HI; apply in_map_iff in HI; destruct HI as [[s' x] [E HI]]; cbn in E; subst s'.
+      apply wal_on_disk_In in HI. exists x. apply in_sget_nodup; auto.
+    - intros [x HX]. apply in_map_iff; exists (s, x); split; [reflexivity|].
+      apply wal_on_disk_In. apply sget_in; exact HX. }
+  assert (E1 : forallb (fun s => memN s (map fst (wal_on_disk d))) (m_segs m) = true).
+  { apply forallb_forall; intros s HI. apply memN_In, HD; exact HI. }
+  rewrite E1; cbn [negb].
+  rewrite merge_segs_id; [|exact HS|intros s HI; apply HD; exact HI].
+  rewrite set_segs_id.
+  destruct (map_opt_wal_member d (m_segs m)) as [EW _]; [intros s HI; apply HL; exact HI|].
+  rewrite EW.
+  assert (EV : (match m_snap m with
+                | None => Ok []
+                | Some s => match sget d (FSnap s) with
+                            | Some (c, _) => Ok [(FSnap s, c)]
+                            | None => Err ESnapshotMissing
+                            end
+                end) = Ok (snap_part d m)).
+  { unfold snap_part. destruct (m_snap m) as [s|] eqn:ES; [|reflexivity].
+    destruct (HSN s eq_refl) as [[c mt'] E]. rewrite E; reflexivity. }
+  rewrite EV. fold (view_files d m).
+  unfold finish_full. destruct (view_files d m) as [|e r] eqn:EVF.
+  - unfold view_files in EVF. destruct (snap_part d m); discriminate.
+  - rewrite <- EVF. rewrite uniq_names_id; [reflexivity|exact NDV|intros n []].
+Qed.
+
+Lemma tget_view_manifest : forall d m, wf_sdir d m -> tget (view_files d m) FManifest = Some (CMan m).
+Proof.
+  intros d m WF. apply in_tget_nodup; [apply view_files_nodup; exact WF|].
+  unfold view_files; apply in_or_app; right; left; reflexivity.
+Qed.
+
+Lemma tget_view_wal : forall d m s c mt, wf_sdir d m -> sget d (FWal s) = Some (c, mt) ->
+  tget (view_files d m) (FWal s) = Some c.
+Proof.
+  intros d m s c mt WF E. apply in_tget_nodup; [apply view_files_nodup; exact WF|].
+  destruct WF as (_ & _ & _ & HL & _).
+  unfold view_files; apply in_or_app; right; right. unfold seg_part. apply in_flat_map.
+  exists s; split; [apply HL; eexists; exact E|]. rewrite E; left; reflexivity.
+Qed.
+
+Lemma tget_view_snap : forall d m s c mt, wf_sdir d m -> m_snap m = Some s -> sget d (FSnap s) = Some (c, mt) ->
+  tget (view_files d m) (FSnap s) = Some c.
+Proof.
+  intros d m s c mt WF ES E. apply in_tget_nodup; [apply view_files_nodup; exact WF|].
+  unfold view_files; apply in_or_app; left. unfold snap_part. rewrite ES, E; left; reflexivity.
+Qed.
+
+(* the view of a directory that satisfies the three lookups of a well-formed source *)
+Lemma recovery_view_matches : forall t d m, wf_sdir d m ->
+  tget t FManifest = Some (CMan m) ->
+  (forall s c mt, sget d (FWal s) = Some (c, mt) -> tget t (FWal s) = Some c) ->
+  (forall s, m_snap m = Some s -> tget t (FSnap s) = option_map fst (sget d (FSnap s))) ->
+  recovery_view t = recovery_view (strip d) /\ restorable t = true.
+Proof.
+  intros t d m WF HM HW HSN. pose proof WF as (ND & [mt EM] & HS & HL & HSE).
+  assert (EQ : recovery_view t = recovery_view (strip d)).
+  { unfold recovery_view. rewrite HM, tget_strip, EM; cbn [option_map fst].
+    assert (E1 : (match m_snap m with
+                  | None => Some None
+                  | Some s => match tget t (FSnap s) with Some c => Some (Some c) | None => None end
+                  end) =
+                 (match m_snap m with
+                  | None => Some None
+                  | Some s => match tget (strip d) (FSnap s) with Some c => Some (Some c) | None => None end
+                  end)).
+    { destruct (m_snap m) as [s|] eqn:ES; [|reflexivity]. rewrite (HSN s eq_refl), tget_strip; reflexivity. }
+    rewrite E1.
+    rewrite (map_opt_ext_in (fun s => tget t (FWal s)) (fun s => tget (strip d) (FWal s)) (m_segs m)); [reflexivity|].
+    intros s HI. apply HL in HI; destruct HI as [[c mt'] E]. rewrite (HW s c mt' E), tget_strip, E; reflexivity. }
+  split; [exact EQ|]. unfold restorable. rewrite EQ.
+  unfold recovery_view. rewrite tget_strip, EM; cbn [option_map fst].
+  destruct (m_snap m) as [s|] eqn:ES.
+  - destruct (HSE s eq_refl) as [[c mt'] E]. rewrite tget_strip, E; cbn [option_map fst].
+    destruct (map_opt (fun s0 => tget (strip d) (FWal s0)) (m_segs m)) eqn:E2; [reflexivity|].
+    exfalso; revert E2; apply map_opt_some. intros x HI. apply HL in HI; destruct HI as [[c' mt''] E3].
+    rewrite tget_strip, E3; discriminate.
+  - destruct (map_opt (fun s0 => tget (strip d) (FWal s0)) (m_segs m)) eqn:E2; [reflexivity|].
+    exfalso; revert E2; apply map_opt_some. intros x HI. apply HL in HI; destruct HI as [[c' mt''] E3].
+    rewrite tget_strip, E3; discriminate.
+Qed.
+
+Lemma extract_is_put_all : forall t b, extract t b = put_all t (b_files b).
+Proof. reflexivity. Qed.
+
+(* C12, full backups: restoring a verified full backup into an empty target yields exactly the
+   recovery-relevant files of the source directory at backup time, nothing else. *)
+Theorem full_restore_exact : forall d m id ts aux o,
+  wf_sdir d m -> o_dry o = false ->
+  exists b, create_full d id ts aux = Ok b /\
+            b_files b = view_files d m /\
+            restore_by_id [b] [] id o = (None, view_files d m) /\
+            recovery_view (view_files d m) = recovery_view (strip d) /\
+            restorable (view_files d m) = true.
+Proof.
+  intros d m id ts aux o WF HD.
+  unfold create_full. rewrite (create_full_files_wf d m WF).
+  eexists; split; [reflexivity|]. cbn [b_files]. split; [reflexivity|]. split.
+  - unfold restore_by_id, build_chain. cbn [find_b b_id]. rewrite N.eqb_refl. cbn [is_full b_kind bkind_eqb].
+    unfold restore_chain. cbn [forallb b_ok negb andb clear_target]. rewrite HD.
+    unfold extract_chain; cbn [fold_left]. rewrite extract_is_put_all; cbn [b_files].
+    rewrite put_all_nodup; [reflexivity|]. cbn [app]. apply view_files_nodup; exact WF.
+  - apply recovery_view_matches with (m := m); auto.
+    + apply tget_view_manifest; exact WF.
+    + intros s c mt E; eapply tget_view_wal; eauto.
+    + intros s ES. destruct WF as (A & B & C & D & HSE). destruct (HSE s ES) as [[c mt] E].
+      rewrite E; cbn. eapply tget_view_snap; eauto. repeat split; auto.
 Qed.
